@@ -136,5 +136,10 @@ func Replay(eventLog *TPMEventLog, pcrIndex pcr.ID, hashAlgo TPMAlgorithm, logOu
 		}
 	}
 
+	if len(result) == 0 && pcrIndex == 0 {
+		// No events at all: the PCR still holds its initial value.
+		result = make([]byte, hasher.Size())
+	}
+
 	return result, nil
 }
